@@ -3,16 +3,17 @@ module verif/harness
 go 1.22
 
 require (
+	github.com/bolkedebruin/gokrb5/v8 v8.5.0
 	github.com/bolkedebruin/rdpgw v0.0.0
 	github.com/coreos/go-oidc/v3 v3.9.0
 	github.com/go-jose/go-jose/v4 v4.0.5
 	github.com/m7913d/go-ntlm v0.0.1
 	golang.org/x/oauth2 v0.18.0
+	google.golang.org/grpc v1.62.1
 )
 
 require (
 	github.com/beorn7/perks v1.0.1 // indirect
-	github.com/bolkedebruin/gokrb5/v8 v8.5.0 // indirect
 	github.com/cespare/xxhash/v2 v2.2.0 // indirect
 	github.com/fatih/structs v1.1.0 // indirect
 	github.com/fsnotify/fsnotify v1.7.0 // indirect
@@ -25,6 +26,7 @@ require (
 	github.com/gorilla/sessions v1.2.2 // indirect
 	github.com/gorilla/websocket v1.5.1 // indirect
 	github.com/hashicorp/go-uuid v1.0.3 // indirect
+	github.com/jcmturner/aescts/v2 v2.0.0 // indirect
 	github.com/jcmturner/dnsutils/v2 v2.0.0 // indirect
 	github.com/jcmturner/gofork v1.7.6 // indirect
 	github.com/jcmturner/goidentity/v6 v6.0.1 // indirect
@@ -46,7 +48,6 @@ require (
 	golang.org/x/text v0.21.0 // indirect
 	google.golang.org/appengine v1.6.8 // indirect
 	google.golang.org/genproto/googleapis/rpc v0.0.0-20240314234333-6e1732d8331c // indirect
-	google.golang.org/grpc v1.62.1 // indirect
 	google.golang.org/protobuf v1.33.0 // indirect
 	gopkg.in/yaml.v3 v3.0.1 // indirect
 )
